@@ -1,0 +1,14 @@
+//go:build verif
+// +build verif
+
+package proxy
+
+// VerifConfigs exposes the resolved upstream configurations (verification harness only, build tag verif).
+// The pointers are the ones proxy.New reads, so the harness can also set the two options the YAML loader
+// never copies (PassAccessToken, SkipAuthPreflight) before calling New.
+func (uc *UpstreamConfigs) VerifConfigs() []*UpstreamConfig { return uc.upstreamConfigs }
+
+// VerifLoadServiceConfigs runs the configuration pipeline on a document (verification harness only).
+func VerifLoadServiceConfigs(raw []byte, cluster, scheme string, vars map[string]string, defaults *OptionsConfig) ([]*UpstreamConfig, error) {
+	return loadServiceConfigs(raw, cluster, scheme, vars, defaults)
+}
